@@ -102,6 +102,36 @@ fn same_dir(source: &Path, dest: &Path, follow: bool) -> Result<bool> {
     Ok(ma.is_dir() && mb.is_dir() && ma.dev() == mb.dev() && ma.ino() == mb.ino())
 }
 
+// Whether anything, a dangling symbolic link included, exists at `path`.
+fn lexists(path: &Path) -> Result<bool> {
+    match path.symlink_metadata() {
+        Ok(_) => Ok(true),
+        Err(e) if e.kind() == ErrorKind::NotFound => Ok(false),
+        Err(e) => Err(e.into()),
+    }
+}
+
+// Whether the path a source maps to already is that very source:
+// the same name spelled differently, a hard link, or a symbolic link
+// in the destination that leads back to it.
+fn same_entry(source: &Path, target: &Path, follow: bool) -> Result<bool> {
+    let sm = if follow { source.metadata() } else { source.symlink_metadata() };
+    let sm = match sm {
+        Ok(m) => m,
+        Err(e) if e.kind() == ErrorKind::NotFound => return Ok(false),
+        Err(e) => return Err(e.into()),
+    };
+    for tm in [target.metadata(), target.symlink_metadata()] {
+        match tm {
+            Ok(m) if m.dev() == sm.dev() && m.ino() == sm.ino() => return Ok(true),
+            Ok(_) => {}
+            Err(e) if e.kind() == ErrorKind::NotFound => {}
+            Err(e) => return Err(e.into()),
+        }
+    }
+    Ok(false)
+}
+
 fn opts_check(opts: &Opts) -> Result<()> {
     #[cfg(any(target_os = "linux", target_os = "android"))]
     if opts.reflink == Reflink::Never {
@@ -163,14 +193,14 @@ fn main() -> Result<()> {
             dest.to_path_buf()
         };
 
-        if source == &target_base {
+        if source == &target_base || same_entry(source, &target_base, opts.dereference)? {
             return Err(XcpError::InvalidSource("Source is same as destination").into());
         }
 
         // A directory cannot replace a file at the path it maps to
         // either; catch it here rather than after earlier sources
         // have already been copied.
-        if is_dir(source)? && target_base.try_exists()? && !is_dir(&target_base)? {
+        if is_dir(source)? && lexists(&target_base)? && !is_dir(&target_base)? {
             return Err(XcpError::InvalidDestination("Cannot copy a directory to a file.").into());
         }
     }
